@@ -60,6 +60,7 @@ fn main() {
     if args.len() >= 3 && args[1] == "--child" {
         let code = match args[2].as_str() {
             "bomb" => c02::child_bomb(&args[3..]),
+            "tls-native" => c12::child_native(&args[3..]),
             _ => 2,
         };
         std::process::exit(code);
